@@ -427,6 +427,8 @@ ALIASES = {}
 
 # non-mut single-binding lets: id -> init expression (filled by psa.norm); lets rules look through `let old = &ctx[r];`
 LET_INITS = {}
+# constant items of the analysed crates: path -> initialiser expression (filled when the facts are loaded)
+CONSTS = {}
 
 
 def canon(i):
@@ -465,8 +467,13 @@ def param_ids(f):
 def resolve(n, depth=6):
     """n with reference/deref sugar peeled and immutable single-binding locals replaced by their initialiser"""
     n = peel(n)
-    while depth > 0 and n.get("k") == "local" and n["id"] in LET_INITS:
-        n = peel(LET_INITS[n["id"]])
+    while depth > 0:
+        if n.get("k") == "local" and n["id"] in LET_INITS:
+            n = peel(LET_INITS[n["id"]])
+        elif n.get("k") == "def" and n.get("path") in CONSTS and peel(CONSTS[n["path"]]).get("k") == "lit":
+            n = peel(CONSTS[n["path"]])      # a named scalar constant
+        else:
+            break
         depth -= 1
     return n
 
